@@ -306,27 +306,30 @@ def pin(index, rep, flow):
 def r3(index, rep, flow):
     rule = "C03.R3"
     fn = index.func(PARAMS, "Parameters.compute_parameters_third_round")
-    call = [c for c in walk_no_nested(fn) if isinstance(c, ast.Call) and dotted(c.func) == "self.increase_biofuels_then_feed"]
-    if len(call) != 1:
-        raise AnalysisError("compute_parameters_third_round: increase_biofuels_then_feed call not found")
-    c = call[0]
+    from .core import find_call
+    fc = find_call(index.methods(PARAMS, "Parameters"), fn, "increase_biofuels_then_feed")
+    if fc is None:
+        raise AnalysisError("compute_parameters_third_round: increase_biofuels_then_feed call not found (also not one helper level down)")
+    host, c, inl = fc
     st = c
     while not isinstance(st, ast.Assign):
         st = getattr(st, "_parent", None)
         if st is None:
             raise AnalysisError("bump result is not assigned")
     from .lanes import role_of
-    inl = Inliner(fn)
     params = [a.arg for a in fn.args.args]
     tg = [inl.src(e) for e in st.targets[0].elts] if isinstance(st.targets[0], ast.Tuple) else []
     args = [inl.src(a) for a in c.args]
+    a3 = inl.expr(c.args[3]) if len(c.args) >= 5 else None
+    a4 = inl.expr(c.args[4]) if len(c.args) >= 5 else None
 
     def base_param(e):
         while isinstance(e, (ast.Attribute, ast.Call, ast.Subscript)):
             e = e.func if isinstance(e, ast.Call) else e.value
         return e.id if isinstance(e, ast.Name) and e.id in params else None
 
-    pb, pf = (base_param(c.args[3]), base_param(c.args[4])) if len(c.args) >= 5 else (None, None)
+    pb, pf = (base_param(a3), base_param(a4)) if a3 is not None else (None, None)
+    inl = Inliner(fn)
     r2 = [p_ for p_ in params if "interpreted_results" in p_ and role_of(p_, ("round1", "round2", "round3")) == "round2"]
     ok = len(tg) == 2 and args[:2] == tg and len(r2) == 1 and tg[0].startswith(f"{r2[0]}.biofuels_sum_kcals_equivalent.") and tg[0].endswith(".kcals") and \
         tg[1].startswith("self.init_meat_and_dairy_and_feed_from_breeding(") and tg[1].endswith("[0].kcals") and \
